@@ -438,6 +438,16 @@ def _expm1_case(ex, term, f, w, bits):
                 raise Mismatch('unexpected exponent construction')
         elif t is not None and t.name == 'pow2floor':
             S = i
+        elif t is None and len(bv) == 2 and bv[0] == ('c', mant, 0) and bv[1][0] == 's' and bv[1][2] == 0 and bv[1][3] == bv[1][1].width == w - mant \
+                and bv[1][1].name.startswith('sum') and bv[1][1].attrs and bv[1][1].attrs[0] == (one >> mant) and len(bv[1][1].attrs[1]) == 1:
+            # the same scale built on the exponent field alone: [mantissa zeros ++ bias +- k]
+            cf = bv[1][1].attrs[1][0] % (1 << (w - mant))
+            if cf == 1:
+                S = i
+            elif cf == (1 << (w - mant)) - 1:
+                S2 = i
+            else:
+                raise Mismatch('unexpected exponent construction')
         else:
             raise Mismatch('unexpected atom %s' % T.fmt(bv, 4)[:100])
     if X is None or K is None or S is None:
@@ -683,10 +693,13 @@ def analyse(job):
             out['res'].append((key, 'mismatch', {'why': 'no small-argument kernel case found (%d paths)' % dr['paths']}))
         else:
             out['res'].append((key, 'ok', summary))
-    for fn in (INV if group == 'inv' else ()):
+    for fn in ((INV + ['acos']) if group == 'inv' else ()):
         key = 'kernel|%s|%s|%s' % (fn, tn, cfgname)
         try:
-            tr = c10inv.analyse_inv(mod, 'm_%s_%s' % (fn, tn), fn, bits, THR)
+            if fn == 'acos':
+                tr = c10inv.analyse_inv_pieces(mod, 'm_%s_%s' % (fn, tn), fn, bits, THR)
+            else:
+                tr = c10inv.analyse_inv(mod, 'm_%s_%s' % (fn, tn), fn, bits, THR)
         except (Mismatch, NotReal) as e:
             out['res'].append((key, 'mismatch', {'why': str(e)[:300]}))
             continue
@@ -834,7 +847,7 @@ def run_for(pid, bits, a):
                     cw = (' -- of which %.3g ulp because the separately rounded product k*%.9g of the argument reduction is not exact (Cody-Waite needs a short leading constant when the multiply is not fused)' % (d['cody_waite_ulp'], d['cody_waite_site'])) if d.get('cody_waite_ulp', 0) > 1 else ''
                     r.violation(key, 'method error of the kernel is %.3g ulp on its reduced domain (approximation %.3g, reduction constants %.3g relative)%s: above the property bound %s ulp plus %s ulp rounding allowance' % (
                         d['ulp'], d['kernel_rel_err'], d['const_rel_err'], cw, float(BOUND_ULP), float(ROUNDING_ALLOWANCE_ULP)), dict(d, obligation=key))
-    want = sum(1 for c in cfgs for f in FUNCS if applicable(f[0], bits, c)) + (len(TRIG) + len(INV) + len(ERFC) + 5 + sum(1 for f_ in DIRF if bits in DIRF[f_])) * len(cfgs)
+    want = sum(1 for c in cfgs for f in FUNCS if applicable(f[0], bits, c)) + (len(TRIG) + len(INV) + 1 + len(ERFC) + 5 + sum(1 for f_ in DIRF if bits in DIRF[f_])) * len(cfgs)
     if npaths < 20 * len(cfgs) and not r.broken:
         r.broke('path-agreement clause compared only %d cells' % npaths)
     if ncont < 30 * len(cfgs) and not r.broken:
@@ -844,7 +857,7 @@ def run_for(pid, bits, a):
     nbad = len(set(k for (k, w, d) in r.violations))
     cov = {'explanation': 'method-error clause only: for every argument of the reduced domain, the real function denoted by the kernel (roundings erased; read off the optimised IR of the public function on %s) is within the stated number of ulps of the mathematical function, reduction constants included; rigorous rational/interval arithmetic.  The ulp bound of the property itself (accumulated rounding over all arguments) is NOT decided.' % cfgs,
            'obligations': nob, 'discharged': nob - nbad, 'evaluations': nob, 'distinct_nontrivial': nob - nbad, 'kernels': rows[:120], 'not_analysed': not_analysed[:30], 'switch_points_evaluated': ncont,
-           'functions_covered': [f[0] for f in FUNCS] + TRIG + INV + ['%s (small-argument kernel)' % f_ for f_ in sorted(DIRF) if bits in DIRF[f_]], 'threshold_ulp': float(THR), 'checker_cmd': 'python3 /verif/check.py %s --tier %s' % (pid, a.tier),
+           'functions_covered': [f[0] for f in FUNCS] + TRIG + INV + ['acos', 'erf (exp tiers)', 'erfc (exp tiers)'] + ['%s (small-argument kernel)' % f_ for f_ in sorted(DIRF) if bits in DIRF[f_]], 'threshold_ulp': float(THR), 'checker_cmd': 'python3 /verif/check.py %s --tier %s' % (pid, a.tier),
            'trusted_base': ['clang 14 -O2 translation of the headers', 'lane-term normaliser (engine/terms.py, lanes.py)', 'engine/realfn.py (rounding-erased reading of lane terms)', 'engine/qi.py (interval arithmetic, series with tail bounds)',
                             'reviewed templates: the meaning of the non-arithmetic atoms (K = nearbyint(cX), S = 2^K, mantissa/exponent split)'],
            'rule': 'sup over the reduced domain of |kernel_real(u) / f(u) - 1| * 2^p <= %s ulp' % float(THR), 'headers_sha256': build.headers_hash()}
